@@ -84,7 +84,8 @@ Proof.
   - intros fv b IHb e IHe H. apply andb_true_iff in H. destruct H as [H H3]. apply andb_true_iff in H. destruct H as [H1 H2].
     rewrite IHb by assumption. destruct e; [reflexivity|discriminate].
   - intros b IHb hs IHhs e IHe f IHf H.
-    apply andb_true_iff in H. destruct H as [H _]. apply andb_true_iff in H. destruct H as [H H4].
+    apply andb_true_iff in H. destruct H as [H _]. apply andb_true_iff in H. destruct H as [H _].
+    apply andb_true_iff in H. destruct H as [H H4].
     apply andb_true_iff in H. destruct H as [H H3]. apply andb_true_iff in H. destruct H as [H1 H2].
     rewrite IHb, IHhs, IHe by assumption. destruct f; [reflexivity|discriminate].
   - intros s IHs r IHr H. apply andb_true_iff in H. destruct H as [H _]. apply andb_true_iff in H. destruct H as [H1 H2].
@@ -168,31 +169,620 @@ Qed.
 Definition real (c0 : scope) (v : var) (d : node) (t : trace) : Prop :=
   (exists d0, In d0 (lookupU (vars c0) v) /\ d = applyv t v d0) \/ (forall d0, applyv t v d0 = d).
 
-Definition Q_s (s : stmt) : Prop := forall prot, upper_ok_s s = true -> flat_s s = true -> forall st, live (cur st) ->
+Lemma real_nil : forall c v d, In d (lookupU (vars c) v) -> real c v d [].
+Proof. intros c v d H. left. exists d. split; [exact H|reflexivity]. Qed.
+
+(* a path realising d from c1, prefixed by paths realising every binding of c1 from c0 *)
+Lemma real_compose : forall (P : trace -> Prop) c0 c1 v d t2,
+  real c1 v d t2 ->
+  (forall d1, In d1 (lookupU (vars c1) v) -> exists t1, P t1 /\ real c0 v d1 t1) ->
+  (exists t1, P t1) ->
+  exists t1, P t1 /\ real c0 v d (t1 ++ t2).
+Proof.
+  intros P c0 c1 v d t2 Hr Hall Hex. destruct Hr as [(d1 & Hin & ->)|Hany].
+  - destruct (Hall d1 Hin) as (t1 & Hp & Hr1). exists t1. split; [exact Hp|].
+    destruct Hr1 as [(d0 & Hin0 & ->)|Hany1].
+    + left. exists d0. split; [exact Hin0|]. rewrite applyv_app. reflexivity.
+    + right. intros d0. rewrite applyv_app. rewrite Hany1. reflexivity.
+  - destruct Hex as (t1 & Hp). exists t1. split; [exact Hp|]. right. intros d0. rewrite applyv_app. apply Hany.
+Qed.
+
+Lemma real_weaken : forall c0 c1 v d t, (forall d0, In d0 (lookupU (vars c1) v) -> In d0 (lookupU (vars c0) v)) ->
+  real c1 v d t -> real c0 v d t.
+Proof. intros c0 c1 v d t H [(d0 & Hin & ->)|Hany]; [left; exists d0; auto|right; exact Hany]. Qed.
+
+Lemma grouped_in_inv : forall a v d, In d (lookupE (grouped a) v) -> In (v, d) a.
+Proof.
+  intros a v d H. unfold lookupE, grouped in H.
+  destruct (in_dec N.eq_dec v (nodup N.eq_dec (map fst a))) as [Hv|Hv].
+  - rewrite lookup_map_in in H by assumption. apply nodup_In in H. apply in_map_iff in H.
+    destruct H as ([w x] & E & H). cbn in E. subst x. apply filter_In in H. destruct H as [H1 H2].
+    cbn in H2. apply N.eqb_eq in H2. subst w. exact H1.
+  - rewrite lookup_map_notin in H by assumption. destruct H.
+Qed.
+
+Lemma filter_ll_nil : forall L, (forall sc, In sc L -> ll sc = false) -> filter ll L = [].
+Proof.
+  induction L as [|a L IH]; intros H; [reflexivity|]. cbn. rewrite (H a (or_introl eq_refl)). apply IH.
+  intros sc Hsc. apply H. right. exact Hsc.
+Qed.
+
+Lemma combine_loops_same : forall S st, (forall sc, In sc S -> ll sc = false) -> loops (combine S st) = loops st.
+Proof. intros S st H. unfold combine, diverted. cbn [loops]. rewrite (filter_ll_nil S H). apply app_nil_r. Qed.
+
+(* ---- liberal paths that exist for syntactic reasons *)
+
+Lemma body_exc_start : forall b, is_nil b = false -> lpath_b true b OExc [].
+Proof. intros [|s r] H; [discriminate|]. cbn [lpath_b]. left. auto. Qed.
+
+Lemma norm_to_exc : forall b, is_nil b = false -> forall t, lpath_b true b ONorm t -> lpath_b true b OExc t.
+Proof.
+  induction b as [|s r IH]; intros Hn t H; [discriminate|].
+  cbn [lpath_b] in H. destruct H as [(_ & X & _)|[(t1 & t2 & H1 & H2 & ->)|[(_ & X & _)|(X & _)]]]; try discriminate; try contradiction.
+  destruct r as [|s' r'].
+  - cbn [lpath_b] in H2. destruct H2 as (_ & ->). rewrite app_nil_r. cbn [lpath_b]. right. right. left. auto.
+  - cbn [lpath_b]. right. left. exists t1, t2. split; [exact H1|]. split; [|reflexivity]. apply IH; [reflexivity|exact H2].
+Qed.
+
+Lemma cc_path :
+  (forall s prot, upper_ok_s s = true -> can_complete s = true -> exists t, lpath_s prot s ONorm t) /\
+  (forall b prot, upper_ok_b b = true -> can_complete_b b = true -> exists t, lpath_b prot b ONorm t) /\
+  (forall hs prot, upper_ok_hs hs = true -> can_complete_hs hs = true -> exists t, lpath_hs prot hs ONorm t).
+Proof.
+  apply syntax_mutind; cbn [upper_ok_s upper_ok_b upper_ok_hs can_complete can_complete_b can_complete_hs lpath_s lpath_b lpath_hs];
+    try (intros; discriminate).
+  - intros v d prot _ _. exists [(v, d)]. auto.
+  - intros v u prot _ _. exists []. auto.
+  - intros prot _ _. exists []. auto.
+  - intros prot _ _. exists []. auto.
+  - intros b IHb e IHe prot Hu Hc. apply andb_true_iff in Hu. destruct Hu as [Hub Hue].
+    apply orb_true_iff in Hc. destruct Hc as [Hc|Hc].
+    + destruct (IHb prot Hub Hc) as (t & H). exists t. left. exact H.
+    + destruct (IHe prot Hue Hc) as (t & H). exists t. right. exact H.
+  - intros fv b IHb e IHe prot _ _. exists []. exists [], []. split; [constructor|]. split; [reflexivity|]. right. left. auto.
+  - intros sup b IHb prot Hu Hc. apply orb_true_iff in Hc. destruct Hc as [Hc|Hc].
+    + destruct (IHb true Hu Hc) as (t & H). exists t. right. right. left. exact H.
+    + exists []. right. left. auto.
+  - intros b IHb hs IHhs e IHe f IHf prot Hu Hc.
+    apply andb_true_iff in Hu. destruct Hu as [Hu Hnb]. apply andb_true_iff in Hu. destruct Hu as [Hu _].
+    apply andb_true_iff in Hu. destruct Hu as [Hu Hf]. apply andb_true_iff in Hu. destruct Hu as [Hu Hue].
+    apply andb_true_iff in Hu. destruct Hu as [Hub Huh].
+    destruct f; [|discriminate]. apply negb_true_iff in Hnb.
+    apply andb_true_iff in Hc. destruct Hc as [Hc _]. apply orb_true_iff in Hc. destruct Hc as [Hc|Hc].
+    + apply andb_true_iff in Hc. destruct Hc as [Hcb Hce].
+      destruct (IHb true Hub Hcb) as (ta & Ha). destruct (IHe (prot || negb (is_nil BNil)) Hue Hce) as (tb & Hb).
+      exists ((ta ++ tb) ++ []). exists ONorm, (ta ++ tb), ONorm, []. split; [left; exists ta, tb; auto|].
+      split; [cbn; auto|]. split; reflexivity.
+    + destruct (IHhs (prot || negb (is_nil BNil)) Huh Hc) as (th & Hh).
+      exists (([] ++ th) ++ []). exists ONorm, ([] ++ th), ONorm, []. split.
+      * right. right. exists []. split; [apply body_exc_start; exact Hnb|]. left. exists th. auto.
+      * split; [cbn; auto|]. split; reflexivity.
+  - intros prot _ _. exists []. auto.
+  - intros s IHs r IHr prot Hu Hc. apply andb_true_iff in Hu. destruct Hu as [Hu _]. apply andb_true_iff in Hu. destruct Hu as [Hus Hur].
+    apply andb_true_iff in Hc. destruct Hc as [Hcs Hcr].
+    destruct (IHs prot Hus Hcs) as (t1 & H1). destruct (IHr prot Hur Hcr) as (t2 & H2).
+    exists (t1 ++ t2). right. left. exists t1, t2. auto.
+  - intros h IHh r IHr prot Hu Hc. apply andb_true_iff in Hu. destruct Hu as [Huh Hur].
+    apply orb_true_iff in Hc. destruct Hc as [Hc|Hc].
+    + destruct (IHh prot Huh Hc) as (t & H). exists t. left. exact H.
+    + destruct (IHr prot Hur Hc) as (t & H). exists t. right. exact H.
+Qed.
+
+(* every assignment inside a protected block is the last assignment to its variable on some
+   liberal path that ends in an exception (raise right after it; an exception that no handler
+   matches propagates) *)
+Lemma reach_and_raise :
+  (forall s, upper_ok_s s = true -> forall v d, In (v, d) (assigned_s s) ->
+     exists t, (lpath_s true s OExc t \/ lpath_s true s ONorm t) /\ forall d0, applyv t v d0 = d) /\
+  (forall b, upper_ok_b b = true -> forall v d, In (v, d) (assigned_b b) ->
+     exists t, lpath_b true b OExc t /\ forall d0, applyv t v d0 = d) /\
+  (forall hs, upper_ok_hs hs = true -> forall v d, In (v, d) (assigned_hs hs) ->
+     exists t, lpath_hs true hs OExc t /\ forall d0, applyv t v d0 = d).
+Proof.
+  destruct cc_path as (CS & CB & _).
+  apply syntax_mutind; cbn [upper_ok_s upper_ok_b upper_ok_hs assigned_s assigned_b assigned_hs];
+    try (intros; match goal with H : In _ [] |- _ => destruct H end).
+  - intros v d _ w x [E|[]]. inversion E; subst. exists [(w, x)]. split; [right; cbn; auto|].
+    intros d0. cbn. rewrite N.eqb_refl. reflexivity.
+  - intros b IHb e IHe Hu v d Hin. apply andb_true_iff in Hu. destruct Hu as [Hub Hue].
+    apply in_app_or in Hin. destruct Hin as [Hin|Hin].
+    + destruct (IHb Hub v d Hin) as (t & Hp & Ha). exists t. split; [left; cbn [lpath_s]; left; exact Hp|exact Ha].
+    + destruct (IHe Hue v d Hin) as (t & Hp & Ha). exists t. split; [left; cbn [lpath_s]; right; exact Hp|exact Ha].
+  - intros fv b IHb e IHe Hu v d Hin. apply andb_true_iff in Hu. destruct Hu as [Hu Hub]. apply andb_true_iff in Hu. destruct Hu as [_ Hne].
+    destruct e; [|discriminate]. cbn [assigned_b] in Hin. rewrite app_nil_r in Hin.
+    destruct (IHb Hub v d Hin) as (t & Hp & Ha). exists t. split; [|exact Ha]. left. cbn [lpath_s].
+    exists [], t. split; [constructor|]. split; [reflexivity|]. right. right. right. split; [right; reflexivity|exact Hp].
+  - intros sup b IHb Hu v d Hin. destruct (IHb Hu v d Hin) as (t & Hp & Ha). exists t. split; [|exact Ha].
+    left. cbn [lpath_s]. right. right. left. exact Hp.
+  - intros b IHb hs IHhs e IHe f IHf Hu v d Hin.
+    apply andb_true_iff in Hu. destruct Hu as [Hu Hnb]. apply andb_true_iff in Hu. destruct Hu as [Hu Hdead].
+    apply andb_true_iff in Hu. destruct Hu as [Hu Hf]. apply andb_true_iff in Hu. destruct Hu as [Hu Hue].
+    apply andb_true_iff in Hu. destruct Hu as [Hub Huh].
+    destruct f; [|discriminate]. apply negb_true_iff in Hnb. cbn [assigned_b] in Hin. rewrite app_nil_r in Hin.
+    apply in_app_or in Hin. destruct Hin as [Hin|Hin]; [|apply in_app_or in Hin; destruct Hin as [Hin|Hin]].
+    + destruct (IHb Hub v d Hin) as (tx & Hp & Ha). exists (tx ++ []). split; [|rewrite app_nil_r; exact Ha].
+      left. cbn [lpath_s]. exists OExc, tx, ONorm, []. split; [right; right; exists tx; split; [exact Hp|right; auto]|].
+      split; [cbn; auto|]. split; reflexivity.
+    + destruct (IHhs Huh v d Hin) as (th & Hp & Ha). exists (([] ++ th) ++ []). split; [|rewrite app_nil_r; exact Ha].
+      left. cbn [lpath_s]. exists OExc, ([] ++ th), ONorm, []. split.
+      * right. right. exists []. split; [apply body_exc_start; exact Hnb|]. left. exists th. split; [exact Hp|reflexivity].
+      * split; [cbn; auto|]. split; reflexivity.
+    + destruct e as [|es er]; [destruct Hin|]. cbn [is_nil] in Hdead. rewrite orb_false_r in Hdead.
+      destruct (CB b true Hub Hdead) as (ta & Hpa). destruct (IHe Hue v d Hin) as (tb & Hp & Ha).
+      exists ((ta ++ tb) ++ []). split; [|rewrite app_nil_r; intros d0; rewrite applyv_app; apply Ha].
+      left. cbn [lpath_s]. exists OExc, (ta ++ tb), ONorm, []. split; [left; exists ta, tb; auto|].
+      split; [cbn; auto|]. split; reflexivity.
+  - intros s IHs r IHr Hu v d Hin. apply andb_true_iff in Hu. destruct Hu as [Hu Hdead]. apply andb_true_iff in Hu. destruct Hu as [Hus Hur].
+    apply in_app_or in Hin. destruct Hin as [Hin|Hin].
+    + destruct (IHs Hus v d Hin) as (t & [Hp|Hp] & Ha); exists t; (split; [|exact Ha]); cbn [lpath_b].
+      * right. right. right. split; [discriminate|exact Hp].
+      * right. right. left. auto.
+    + destruct r as [|s' r']; [destruct Hin|]. cbn [is_nil] in Hdead. rewrite orb_false_r in Hdead.
+      destruct (CS s true Hus Hdead) as (t1 & H1). destruct (IHr Hur v d Hin) as (t2 & H2 & Ha).
+      exists (t1 ++ t2). split; [|intros d0; rewrite applyv_app; apply Ha].
+      cbn [lpath_b]. right. left. exists t1, t2. auto.
+  - intros h IHh r IHr Hu v d Hin. apply andb_true_iff in Hu. destruct Hu as [Huh Hur].
+    apply in_app_or in Hin. destruct Hin as [Hin|Hin].
+    + destruct (IHh Huh v d Hin) as (t & Hp & Ha). exists t. split; [cbn [lpath_hs]; left; exact Hp|exact Ha].
+    + destruct (IHr Hur v d Hin) as (t & Hp & Ha). exists t. split; [cbn [lpath_hs]; right; exact Hp|exact Ha].
+Qed.
+
+Lemma suppress_complete : forall a st0 s1 v d, live (cur st0) ->
+  kle (vars (cur st0)) (vars (cur s1)) ->
+  In d (lookupU (vars (cur (snd (suppress_leave (grouped a) st0 s1)))) v) ->
+  In d (lookupU (vars (cur st0)) v) \/ In (v, d) a \/ (keeps (cur s1) = true /\ In d (lookupU (vars (cur s1)) v)).
+Proof.
+  intros a st0 s1 v d Hl Hk Hin. unfold suppress_leave in Hin. cbn [snd] in Hin.
+  set (dummy := strip_ls (cur (restore st0 s1))) in *.
+  set (newsc := mkScope (merge_rest (vars dummy) (grouped a)) false (ll dummy)) in *.
+  assert (Hkd : keeps dummy = true) by (apply live_keeps; destruct Hl; split; cbn; auto).
+  destruct (combine_complete [dummy; newsc; cur s1] (restore st0 s1) v d) as (sc & Hsc & Hks & Hd); auto.
+  - intros sc [<-|[<-|[<-|[]]]].
+    + cbn. apply kle_refl.
+    + cbn [vars cur restore newsc]. intros w Hw. unfold merge_rest. rewrite lookup_map_in; [discriminate|].
+      apply nodup_In. apply in_or_app. left. apply lookup_some_keys. exact Hw.
+    + exact Hk.
+  - intros E. pose proof (kept_in [dummy; newsc; cur s1] dummy (or_introl eq_refl) Hkd) as X. rewrite E in X. destruct X.
+  - destruct Hsc as [<-|[<-|[<-|[]]]].
+    + left. exact Hd.
+    + cbn [vars newsc] in Hd. unfold lookupU, merge_rest in Hd.
+      destruct (in_dec N.eq_dec v (nodup N.eq_dec (keys (vars dummy) ++ keys (grouped a)))) as [Hv|Hv].
+      * rewrite lookup_map_in in Hd by assumption. apply in_app_or in Hd. destruct Hd as [Hd|Hd].
+        -- left. unfold lookupE in Hd. unfold lookupU. change (vars (cur st0)) with (vars dummy).
+           destruct (lookup (vars dummy) v); [exact Hd|destruct Hd].
+        -- right. left. apply grouped_in_inv. exact Hd.
+      * rewrite lookup_map_notin in Hd by assumption. left. unfold lookupU. change (vars (cur st0)) with (vars dummy).
+        assert (Hn : lookup (vars dummy) v = None).
+        { apply lookup_none_keys. intros Hc. apply Hv. apply nodup_In. apply in_or_app. left. exact Hc. }
+        rewrite Hn. exact Hd.
+    + right. right. auto.
+Qed.
+
+Lemma upper_facts_hs : forall hs dummy failure o, upper_ok_hs hs = true ->
+  Forall (fun h => kle (vars (cur o)) (vars h)) (fst (visit_hs hs dummy failure o)) /\
+  cur (snd (visit_hs hs dummy failure o)) = cur o.
+Proof.
+  intros hs dummy failure o H. destruct upper_nojump as (_ & _ & NJ). destruct nojump_lower_ok_all as (_ & _ & LH).
+  destruct (LH hs (NJ hs H)) as (L1 & _). destruct sound_all as (_ & _ & PH).
+  destruct (PH hs L1 dummy failure o) as (_ & C & _ & F & _). split; assumption.
+Qed.
+
+(* ---- the completeness invariant *)
+
+Definition Q_s (s : stmt) : Prop := forall prot, upper_ok_s s = true -> forall st, live (cur st) ->
   (forall u d, In (u, d) (u2d (visit_s s st)) -> In (u, d) (u2d st) \/
       exists t v, lupath_s prot s t v u /\ real (cur st) v d t) /\
   (live (cur (visit_s s st)) ->
       (exists t, lpath_s prot s ONorm t) /\
       forall v d1, In d1 (lookupU (vars (cur (visit_s s st))) v) ->
         exists t, lpath_s prot s ONorm t /\ real (cur st) v d1 t) /\
-  (can_complete s = true -> live (cur (visit_s s st))).
+  (can_complete s = true -> live (cur (visit_s s st))) /\
+  loops (visit_s s st) = loops st.
 
-Definition Q_b (b : block) : Prop := forall prot, upper_ok_b b = true -> flat_b b = true -> forall st, live (cur st) ->
+Definition Q_b (b : block) : Prop := forall prot, upper_ok_b b = true -> forall st, live (cur st) ->
   (forall u d, In (u, d) (u2d (visit_b b st)) -> In (u, d) (u2d st) \/
       exists t v, lupath_b prot b t v u /\ real (cur st) v d t) /\
   (live (cur (visit_b b st)) ->
       (exists t, lpath_b prot b ONorm t) /\
       forall v d1, In d1 (lookupU (vars (cur (visit_b b st))) v) ->
         exists t, lpath_b prot b ONorm t /\ real (cur st) v d1 t) /\
-  (can_complete_b b = true -> live (cur (visit_b b st))).
+  (can_complete_b b = true -> live (cur (visit_b b st))) /\
+  loops (visit_b b st) = loops st.
 
-Lemma real_nil : forall c v d, In d (lookupU (vars c) v) -> real c v d [].
-Proof. intros c v d H. left. exists d. split; [exact H|reflexivity]. Qed.
+Definition Q_hs (hs : handlers) : Prop := forall prot, upper_ok_hs hs = true -> forall dummy failure o,
+  ll (cur o) = false -> keeps failure = true -> keeps dummy = true ->
+  kle (vars (cur o)) (vars failure) -> kle (vars (cur o)) (vars dummy) ->
+  (forall v d, In d (lookupU (vars dummy) v) -> In d (lookupU (vars failure) v)) ->
+  (forall u d, In (u, d) (u2d (snd (visit_hs hs dummy failure o))) -> In (u, d) (u2d o) \/
+      exists t v, lupath_hs prot hs t v u /\ real failure v d t) /\
+  (forall h, In h (fst (visit_hs hs dummy failure o)) -> live h ->
+      (exists t, lpath_hs prot hs ONorm t) /\
+      forall v d1, In d1 (lookupU (vars h) v) -> exists t, lpath_hs prot hs ONorm t /\ real failure v d1 t) /\
+  (can_complete_hs hs = true -> exists h, In h (fst (visit_hs hs dummy failure o)) /\ live h) /\
+  loops (snd (visit_hs hs dummy failure o)) = loops o /\
+  (forall h, In h (fst (visit_hs hs dummy failure o)) -> ll h = false).
 
-Lemma upper_all : (forall s, Q_s s) /\ (forall b, Q_b b) /\ (forall hs : handlers, True).
+Lemma live_back_b : forall b st, upper_ok_b b = true -> ll (cur st) = false ->
+  live (cur (visit_b b st)) -> live (cur st).
 Proof.
-  apply syntax_mutind; auto; try (intros; intros prot Hu Hf; discriminate).
-  - (* SAssign *) intros v d prot _ _ st Hl. cbn [visit_s]. split; [|split].
+  intros b st Hu Hll [X1 X2]. split; [|exact Hll].
+  destruct (ls (cur st)) eqn:E; [|reflexivity]. destruct ls_mono as (_ & LM & _).
+  rewrite (LM b st E) in X1. discriminate.
+Qed.
+
+Lemma uq_if : forall b e, Q_b b -> Q_b e -> Q_s (SIf b e).
+Proof.
+  intros b e IHb IHe prot Hu st Hl.
+  cbn [upper_ok_s] in Hu. apply andb_true_iff in Hu. destruct Hu as [Hub Hue].
+  cbn [visit_s].
+  set (s1 := visit_b b (enter st)). set (s2 := visit_b e (if_mid st s1)).
+  destruct (IHb prot Hub (enter st) (enter_live _ Hl)) as (Ub & Nb & Lb & Pb). fold s1 in Ub, Nb, Lb, Pb.
+  destruct (IHe prot Hue (if_mid st s1) (enter_live (restore st s1) Hl)) as (Ue & Ne & Le & Pe). fold s2 in Ue, Ne, Le, Pe.
+  destruct (upper_facts_b b (enter st) Hub) as (Kb & Mb). fold s1 in Kb, Mb.
+  destruct (upper_facts_b e (if_mid st s1) Hue) as (Ke & Me). fold s2 in Ke, Me.
+  assert (Hll : ll (cur st) = false) by (destruct Hl; assumption).
+  split; [|split; [|split]].
+  - intros u d H. change (u2d (if_finish st s1 s2)) with (u2d s2) in H.
+    destruct (Ue u d H) as [H1|(t & v & Hp & Hr)].
+    + change (u2d (if_mid st s1)) with (u2d s1) in H1. destruct (Ub u d H1) as [H2|(t & v & Hp & Hr)].
+      * left. exact H2.
+      * right. exists t, v. split; [cbn [lupath_s]; left; exact Hp|exact Hr].
+    + right. exists t, v. split; [cbn [lupath_s]; right; exact Hp|exact Hr].
+  - intros Hlf.
+    assert (Hne : kept [cur s1; cur s2] <> []) by (apply (combine_live_kept _ (restore (restore st s1) s2)); exact Hlf).
+    split.
+    + destruct (kept [cur s1; cur s2]) as [|k0 K'] eqn:EK; [contradiction|].
+      assert (Hk0 : In k0 (kept [cur s1; cur s2])) by (rewrite EK; left; reflexivity).
+      unfold kept in Hk0. apply filter_In in Hk0. destruct Hk0 as [[<-|[<-|[]]] Hk].
+      * destruct (Nb (keeps_live _ Hk)) as ((t & Hp) & _). exists t. cbn [lpath_s]. left. exact Hp.
+      * destruct (Ne (keeps_live _ Hk)) as ((t & Hp) & _). exists t. cbn [lpath_s]. right. exact Hp.
+    + intros v d1 H.
+      destruct (combine_complete [cur s1; cur s2] (restore (restore st s1) s2) v d1) as (sc & Hin & Hk & Hd); auto.
+      { intros sc [<-|[<-|[]]]; assumption. }
+      destruct Hin as [<-|[<-|[]]].
+      * destruct (Nb (keeps_live _ Hk)) as (_ & Nb'). destruct (Nb' v d1 Hd) as (t & Hp & Hr).
+        exists t. split; [cbn [lpath_s]; left; exact Hp|exact Hr].
+      * destruct (Ne (keeps_live _ Hk)) as (_ & Ne'). destruct (Ne' v d1 Hd) as (t & Hp & Hr).
+        exists t. split; [cbn [lpath_s]; right; exact Hp|exact Hr].
+  - intros Hc. cbn [can_complete] in Hc. apply orb_true_iff in Hc. destruct Hc as [Hc|Hc].
+    + eapply combine_live with (sc := cur s1); [left; reflexivity|apply live_keeps; apply Lb; exact Hc|exact Hl].
+    + eapply combine_live with (sc := cur s2); [right; left; reflexivity|apply live_keeps; apply Le; exact Hc|exact Hl].
+  - unfold if_finish. rewrite combine_loops_same.
+    + cbn [restore loops]. rewrite Pe. cbn [if_mid enter restore loops]. rewrite Pb. reflexivity.
+    + intros sc [<-|[<-|[]]]; [rewrite Mb|rewrite Me]; cbn; exact Hll.
+Qed.
+
+Lemma uq_bcons : forall s r, Q_s s -> Q_b r -> Q_b (BCons s r).
+Proof.
+  intros s r IHs IHr prot Hu st Hl.
+  cbn [upper_ok_b] in Hu. apply andb_true_iff in Hu. destruct Hu as [Hu Hdead]. apply andb_true_iff in Hu. destruct Hu as [Hus Hur].
+  cbn [visit_b]. set (st1 := visit_s s st).
+  destruct (IHs prot Hus st Hl) as (Us & Ns & Ls & Ps). fold st1 in Us, Ns, Ls, Ps.
+  destruct (upper_facts_s s st Hus) as (Ks & Ms). fold st1 in Ks, Ms.
+  assert (Hll1 : ll (cur st1) = false) by (rewrite Ms; destruct Hl; assumption).
+  split; [|split; [|split]].
+  - intros u d H.
+    destruct r as [|s' r'].
+    + cbn [visit_b] in H. destruct (Us u d H) as [H1|(t & v & Hp & Hr)]; [left; exact H1|].
+      right. exists t, v. split; [cbn [lupath_b]; left; exact Hp|exact Hr].
+    + set (r := BCons s' r') in *.
+      assert (Hcs : can_complete s = true) by (cbn in Hdead; rewrite orb_false_r in Hdead; exact Hdead).
+      pose proof (Ls Hcs) as Hl1.
+      destruct (IHr prot Hur st1 Hl1) as (Ur & _ & _).
+      destruct (Ur u d H) as [H1|(t2 & v & Hp & Hr)].
+      * destruct (Us u d H1) as [H2|(t & v & Hp & Hr)]; [left; exact H2|].
+        right. exists t, v. split; [cbn [lupath_b]; left; exact Hp|exact Hr].
+      * right. destruct (Ns Hl1) as (Hex & Ns').
+        destruct (real_compose (fun t => lpath_s prot s ONorm t) (cur st) (cur st1) v d t2 Hr (Ns' v) Hex) as (t1 & Hp1 & Hr1).
+        exists (t1 ++ t2), v. split; [cbn [lupath_b]; right; exists t1, t2; auto|exact Hr1].
+  - intros Hl2. pose proof (live_back_b r st1 Hur Hll1 Hl2) as Hl1.
+    destruct (IHr prot Hur st1 Hl1) as (_ & Nr & _). destruct (Nr Hl2) as ((t2 & Hp2) & Nr').
+    destruct (Ns Hl1) as ((t0 & Hp0) & Ns').
+    split; [exists (t0 ++ t2); cbn [lpath_b]; right; left; exists t0, t2; auto|].
+    intros v d2 H. destruct (Nr' v d2 H) as (t2' & Hp2' & Hr).
+    destruct (real_compose (fun t => lpath_s prot s ONorm t) (cur st) (cur st1) v d2 t2' Hr (Ns' v) (ex_intro _ t0 Hp0)) as (t1 & Hp1 & Hr1).
+    exists (t1 ++ t2'). split; [cbn [lpath_b]; right; left; exists t1, t2'; auto|exact Hr1].
+  - intros Hc. cbn [can_complete_b] in Hc. apply andb_true_iff in Hc. destruct Hc as [Hc1 Hc2].
+    destruct (IHr prot Hur st1 (Ls Hc1)) as (_ & _ & Lr & _). apply Lr. exact Hc2.
+  - destruct r as [|s' r']; [cbn [visit_b]; exact Ps|].
+    set (r := BCons s' r') in *.
+    assert (Hcs : can_complete s = true) by (cbn in Hdead; rewrite orb_false_r in Hdead; exact Hdead).
+    destruct (IHr prot Hur st1 (Ls Hcs)) as (_ & _ & _ & Pr). rewrite Pr. exact Ps.
+Qed.
+
+Lemma uq_with : forall sup b, Q_b b -> Q_s (SWith sup b).
+Proof.
+  intros sup b IHb prot Hu st Hl. cbn [upper_ok_s] in Hu. cbn [visit_s].
+  assert (Hll : ll (cur st) = false) by (destruct Hl; assumption).
+  destruct sup.
+  - set (s1 := visit_b b (enter st)).
+    destruct (IHb true Hu (enter st) (enter_live _ Hl)) as (Ub & Nb & Lb & Pb). fold s1 in Ub, Nb, Lb, Pb.
+    destruct (upper_facts_b b (enter st) Hu) as (Kb & Mb). fold s1 in Kb, Mb.
+    destruct reach_and_raise as (_ & RB & _).
+    split; [|split; [|split]].
+    + intros u d H. rewrite suppress_u2d in H. destruct (Ub u d H) as [H1|(t & v & Hp & Hr)]; [left; exact H1|].
+      right. exists t, v. split; [cbn [lupath_s]; exact Hp|exact Hr].
+    + intros _. split; [exists []; cbn [lpath_s]; right; left; auto|].
+      intros v d1 H.
+      destruct (suppress_complete (assigned_b b) st s1 v d1 Hl Kb H) as [H1|[H1|(Hk & H1)]].
+      * exists []. split; [cbn [lpath_s]; right; left; auto|apply real_nil; exact H1].
+      * destruct (RB b Hu v d1 H1) as (t & Hp & Ha). exists t.
+        split; [cbn [lpath_s]; right; right; right; auto|right; exact Ha].
+      * destruct (Nb (keeps_live _ Hk)) as (_ & Nb'). destruct (Nb' v d1 H1) as (t & Hp & Hr).
+        exists t. split; [cbn [lpath_s]; right; right; left; exact Hp|exact Hr].
+    + intros _. apply suppress_live. exact Hl.
+    + unfold suppress_leave. cbn [snd]. rewrite combine_loops_same; [cbn [restore loops]; exact Pb|].
+      intros sc [<-|[<-|[<-|[]]]]; cbn; try exact Hll. rewrite Mb. cbn. exact Hll.
+  - destruct (IHb true Hu st Hl) as (Ub & Nb & Lb & Pb).
+    split; [|split; [|split]].
+    + intros u d H. destruct (Ub u d H) as [H1|(t & v & Hp & Hr)]; [left; exact H1|].
+      right. exists t, v. split; [cbn [lupath_s]; exact Hp|exact Hr].
+    + intros Hl2. destruct (Nb Hl2) as ((t & Hp) & Nb'). split.
+      * exists t. cbn [lpath_s]. right. right. left. exact Hp.
+      * intros v d1 H. destruct (Nb' v d1 H) as (t' & Hp' & Hr). exists t'.
+        split; [cbn [lpath_s]; right; right; left; exact Hp'|exact Hr].
+    + intros Hc. cbn [can_complete] in Hc. rewrite orb_false_r in Hc. apply Lb. exact Hc.
+    + exact Pb.
+Qed.
+
+Lemma uq_hcons : forall h r, Q_b h -> Q_hs r -> Q_hs (HCons h r).
+Proof.
+  intros h r IHh IHr prot Hu dummy failure o Hll Hkf Hkd Hklf Hkld Hsub.
+  cbn [upper_ok_hs] in Hu. apply andb_true_iff in Hu. destruct Hu as [Huh Hur].
+  cbn [visit_hs].
+  set (en := combine [dummy; failure] (enter o)).
+  set (h2 := visit_b h en).
+  set (rr := visit_hs r dummy failure (restore o h2)).
+  cbn [fst snd].
+  assert (Hlo : live (cur (enter o))) by (apply live_strip; exact Hll).
+  assert (Len : live (cur en)).
+  { eapply combine_live with (sc := failure); [right; left; reflexivity|exact Hkf|exact Hlo]. }
+  assert (Hen : forall v d, In d (lookupU (vars (cur en)) v) -> In d (lookupU (vars failure) v)).
+  { intros v d H. destruct (combine_complete [dummy; failure] (enter o) v d) as (sc & Hin & _ & Hd); auto.
+    - intros sc [<-|[<-|[]]]; assumption.
+    - intros E. pose proof (kept_in [dummy; failure] failure (or_intror (or_introl eq_refl)) Hkf) as X. rewrite E in X. destruct X.
+    - destruct Hin as [<-|[<-|[]]]; auto. }
+  assert (Pen : loops en = loops o).
+  { unfold en. rewrite combine_loops_same; [reflexivity|].
+    intros sc [<-|[<-|[]]]; [apply keeps_live in Hkd; destruct Hkd|apply keeps_live in Hkf; destruct Hkf]; assumption. }
+  destruct (IHh prot Huh en Len) as (Uh & Nh & Lh & Ph). fold h2 in Uh, Nh, Lh, Ph.
+  destruct (upper_facts_b h en Huh) as (Kh & Mh). fold h2 in Kh, Mh.
+  destruct (IHr prot Hur dummy failure (restore o h2) Hll Hkf Hkd Hklf Hkld Hsub) as (Ur & Nr & Lr & Pr & Mr). fold rr in Ur, Nr, Lr, Pr, Mr.
+  split; [|split; [|split; [|split]]].
+  - intros u d H. destruct (Ur u d H) as [H1|(t & v & Hp & Hr)].
+    + cbn [restore u2d] in H1. destruct (Uh u d H1) as [H2|(t & v & Hp & Hr)]; [left; exact H2|].
+      right. exists t, v. split; [cbn [lupath_hs]; left; exact Hp|]. eapply real_weaken; [|exact Hr]. apply Hen.
+    + right. exists t, v. split; [cbn [lupath_hs]; right; exact Hp|exact Hr].
+  - intros x [<-|Hx] Hlx.
+    + destruct (Nh Hlx) as ((t & Hp) & Nh'). split; [exists t; cbn [lpath_hs]; left; exact Hp|].
+      intros v d1 H. destruct (Nh' v d1 H) as (t' & Hp' & Hr). exists t'. split; [cbn [lpath_hs]; left; exact Hp'|].
+      eapply real_weaken; [|exact Hr]. apply Hen.
+    + destruct (Nr x Hx Hlx) as ((t & Hp) & Nr'). split; [exists t; cbn [lpath_hs]; right; exact Hp|].
+      intros v d1 H. destruct (Nr' v d1 H) as (t' & Hp' & Hr). exists t'. split; [cbn [lpath_hs]; right; exact Hp'|exact Hr].
+  - intros Hc. cbn [can_complete_hs] in Hc. apply orb_true_iff in Hc. destruct Hc as [Hc|Hc].
+    + exists (cur h2). split; [left; reflexivity|apply Lh; exact Hc].
+    + destruct (Lr Hc) as (x & Hx & Hlx). exists x. split; [right; exact Hx|exact Hlx].
+  - rewrite Pr. cbn [restore loops]. rewrite Ph. exact Pen.
+  - intros x [<-|Hx]; [rewrite Mh; destruct Len; assumption|apply Mr; exact Hx].
+Qed.
+
+Lemma uq_try : forall b hs e f, Q_b b -> Q_hs hs -> Q_b e -> Q_s (STry b hs e f).
+Proof.
+  intros b hs e f IHb IHhs IHe prot Hu st Hl. cbn [upper_ok_s] in Hu.
+  apply andb_true_iff in Hu. destruct Hu as [Hu Hnb]. apply andb_true_iff in Hu. destruct Hu as [Hu Hdead].
+  apply andb_true_iff in Hu. destruct Hu as [Hu Hf]. apply andb_true_iff in Hu. destruct Hu as [Hu Hue].
+  apply andb_true_iff in Hu. destruct Hu as [Hub Huh].
+  destruct f; [|discriminate]. apply negb_true_iff in Hnb.
+  cbn [visit_s is_nil]. fold (try_except b hs e st). unfold try_except.
+  set (pe := prot || negb (is_nil BNil)).
+  set (s1 := visit_b b (te_body_entry st)).
+  set (sf := te_after_body b st s1).
+  set (e1 := te_else_entry st sf).
+  set (e2 := visit_b e e1).
+  set (dummy := strip_ls (cur (enter st))).
+  set (failure := cur (snd sf)).
+  set (o3 := te_handlers_entry st sf e2).
+  set (hr := visit_hs hs dummy failure o3).
+  assert (Hll : ll (cur st) = false) by (destruct Hl; assumption).
+  assert (Hl3 : live (cur (te_body_entry st))) by (destruct Hl; split; cbn; auto).
+  assert (Hl2 : live (cur (enter (enter st)))) by (destruct Hl; split; cbn; auto).
+  destruct (IHb true Hub (te_body_entry st) Hl3) as (Ub & Nb & Lb & Pb). fold s1 in Ub, Nb, Lb, Pb.
+  destruct (upper_facts_b b (te_body_entry st) Hub) as (Kb & Mb). fold s1 in Kb, Mb.
+  destruct (upper_facts_b e e1 Hue) as (Ke & Me). fold e2 in Ke, Me.
+  destruct (upper_facts_hs hs dummy failure o3 Huh) as (Fh & Ch). fold hr in Fh, Ch.
+  destruct reach_and_raise as (_ & RB & _).
+  assert (Lf : live failure) by (apply suppress_live; exact Hl2).
+  assert (Kf : kle (vars (cur o3)) (vars failure)) by (apply (suppress_kle _ (enter (enter st)) s1)).
+  assert (Ke1 : kle (vars (cur st)) (vars (cur e1))) by (apply (combine_kle _ (enter (restore (enter st) (snd sf))))).
+  assert (Hll_s1 : ll (cur s1) = false) by (rewrite Mb; cbn; exact Hll).
+  assert (Hll_e1 : ll (cur e1) = false) by (cbn; exact Hll).
+  assert (Hll_e2 : ll (cur e2) = false) by (rewrite Me; exact Hll_e1).
+  (* every binding possible when a handler starts is realised by a path of the body that raises *)
+  assert (F : forall v d0, In d0 (lookupU (vars failure) v) ->
+            exists tx, lpath_b true b OExc tx /\ real (cur st) v d0 tx).
+  { intros v d0 H.
+    destruct (suppress_complete (assigned_b b) (enter (enter st)) s1 v d0 Hl2 Kb H) as [H1|[H1|(Hk & H1)]].
+    - exists []. split; [apply body_exc_start; exact Hnb|apply real_nil; exact H1].
+    - destruct (RB b Hub v d0 H1) as (t & Hp & Ha). exists t. split; [exact Hp|right; exact Ha].
+    - destruct (Nb (keeps_live _ Hk)) as (_ & Nb'). destruct (Nb' v d0 H1) as (t & Hp & Hr).
+      exists t. split; [apply norm_to_exc; assumption|exact Hr]. }
+  assert (Fex : exists tx, lpath_b true b OExc tx) by (exists []; apply body_exc_start; exact Hnb).
+  (* the else clause starts from the bindings of a normal end of the body *)
+  assert (Hs1e1 : live (cur s1) -> live (cur e1)).
+  { intros L1. eapply combine_live with (sc := cur s1); [left; reflexivity|apply live_keeps; exact L1|].
+    apply live_strip. cbn. exact Hll. }
+  assert (He1s1 : live (cur e1) -> live (cur s1)).
+  { intros L1. pose proof (combine_live_kept _ _ L1) as Hne. unfold kept in Hne. cbn [filter] in Hne.
+    change (fst sf) with (cur s1) in Hne. destruct (keeps (cur s1)) eqn:E; [apply keeps_live; exact E|contradiction]. }
+  assert (E1 : live (cur e1) -> forall v d1, In d1 (lookupU (vars (cur e1)) v) ->
+            exists ta, lpath_b true b ONorm ta /\ real (cur st) v d1 ta).
+  { intros L1 v d1 H. pose proof (He1s1 L1) as Ls1. destruct (Nb Ls1) as (_ & Nb').
+    destruct (combine_complete [fst sf] (enter (restore (enter st) (snd sf))) v d1) as (sc & Hin & _ & Hd); auto.
+    - intros sc [<-|[]]. exact Kb.
+    - apply (combine_live_kept _ _ L1).
+    - destruct Hin as [<-|[]]. apply Nb'. exact Hd. }
+  assert (Hsub : forall v d, In d (lookupU (vars dummy) v) -> In d (lookupU (vars failure) v)).
+  { intros v d H. apply (suppress_sat (assigned_b b) (enter (enter st)) s1 v d d Hl2 H). left. reflexivity. }
+  assert (Hkd : keeps dummy = true) by (apply live_keeps; destruct Hl; split; cbn; auto).
+  assert (Hll3 : ll (cur o3) = false) by (cbn; exact Hll).
+  destruct (IHhs pe Huh dummy failure o3 Hll3 (live_keeps _ Lf) Hkd Kf (kle_refl _) Hsub) as (Uh & Nh & Lh & Ph & Mh).
+  fold hr in Uh, Nh, Lh, Ph, Mh.
+  assert (Hfin : forall t1 o1, lpath_te prot b hs e pe o1 t1 -> o1 = ONorm ->
+            lpath_s prot (STry b hs e BNil) ONorm (t1 ++ [])).
+  { intros t1 o1 H ->. cbn [lpath_s]. exists ONorm, t1, ONorm, []. split; [exact H|]. split; [cbn; auto|]. split; reflexivity. }
+  split; [|split; [|split]].
+  - (* uses *)
+    intros u d H. change (u2d (te_finish st e2 hr)) with (u2d (snd hr)) in H.
+    destruct (Uh u d H) as [H1|(th & v & Hp & Hr)].
+    + change (u2d o3) with (u2d e2) in H1.
+      assert (Hs1 : In (u, d) (u2d s1) -> In (u, d) (u2d st) \/ exists t v, lupath_s prot (STry b hs e BNil) t v u /\ real (cur st) v d t).
+      { intros H2. destruct (Ub u d H2) as [H3|(t & v & Hp & Hr)]; [left; exact H3|].
+        right. exists t, v. split; [cbn [lupath_s]; left; exact Hp|exact Hr]. }
+      destruct e as [|es er]; [apply Hs1; exact H1|].
+      cbn [is_nil] in Hdead. rewrite orb_false_r in Hdead.
+      pose proof (Hs1e1 (Lb Hdead)) as L1.
+      destruct (IHe pe Hue e1 L1) as (Ue & _). fold e2 in Ue.
+      destruct (Ue u d H1) as [H2|(tb & v & Hp & Hr)]; [apply Hs1; exact H2|].
+      right. destruct (Nb (He1s1 L1)) as (Hex & _).
+      destruct (real_compose (fun t => lpath_b true b ONorm t) (cur st) (cur e1) v d tb Hr (E1 L1 v) Hex) as (ta & Hpa & Hra).
+      exists (ta ++ tb), v. split; [|exact Hra]. cbn [lupath_s]. right. left. exists ta, tb. auto.
+    + right.
+      destruct (real_compose (fun t => lpath_b true b OExc t) (cur st) failure v d th Hr (F v) Fex) as (tx & Hpx & Hrx).
+      exists (tx ++ th), v. split; [|exact Hrx]. cbn [lupath_s]. right. right. left. exists tx, th. auto.
+  - (* normal end *)
+    intros Hlf.
+    assert (Hne : kept (cur e2 :: fst hr) <> []) by (apply (combine_live_kept _ (restore st (snd hr))); exact Hlf).
+    assert (Hkle : forall sc, In sc (cur e2 :: fst hr) -> kle (vars (cur (restore st (snd hr)))) (vars sc)).
+    { intros sc [<-|Hin]; [exact (kle_trans _ _ _ Ke1 Ke)|]. rewrite Forall_forall in Fh. apply (Fh sc Hin). }
+    assert (Hone : forall sc, In sc (cur e2 :: fst hr) -> keeps sc = true ->
+              (exists t, lpath_s prot (STry b hs e BNil) ONorm t) /\
+              forall v d1, In d1 (lookupU (vars sc) v) -> exists t, lpath_s prot (STry b hs e BNil) ONorm t /\ real (cur st) v d1 t).
+    { intros sc [<-|Hin] Hk.
+      - pose proof (live_back_b e e1 Hue Hll_e1 (keeps_live _ Hk)) as L1.
+        destruct (IHe pe Hue e1 L1) as (_ & Ne & _). fold e2 in Ne.
+        destruct (Ne (keeps_live _ Hk)) as ((tb0 & Hpb0) & Ne').
+        destruct (Nb (He1s1 L1)) as ((ta0 & Hpa0) & _).
+        split.
+        + exists ((ta0 ++ tb0) ++ []). apply (Hfin _ ONorm); [left; exists ta0, tb0; auto|reflexivity].
+        + intros v d1 H. destruct (Ne' v d1 H) as (tb & Hpb & Hr).
+          destruct (real_compose (fun t => lpath_b true b ONorm t) (cur st) (cur e1) v d1 tb Hr (E1 L1 v) (ex_intro _ ta0 Hpa0)) as (ta & Hpa & Hra).
+          exists ((ta ++ tb) ++ []). split; [apply (Hfin _ ONorm); [left; exists ta, tb; auto|reflexivity]|].
+          rewrite app_nil_r. exact Hra.
+      - destruct (Nh sc Hin (keeps_live _ Hk)) as ((th0 & Hph0) & Nh').
+        destruct Fex as (tx0 & Hpx0).
+        split.
+        + exists ((tx0 ++ th0) ++ []). apply (Hfin _ ONorm); [|reflexivity].
+          right. right. exists tx0. split; [exact Hpx0|]. left. exists th0. auto.
+        + intros v d1 H. destruct (Nh' v d1 H) as (th & Hph & Hr).
+          destruct (real_compose (fun t => lpath_b true b OExc t) (cur st) failure v d1 th Hr (F v) (ex_intro _ tx0 Hpx0)) as (tx & Hpx & Hrx).
+          exists ((tx ++ th) ++ []). split; [|rewrite app_nil_r; exact Hrx].
+          apply (Hfin _ ONorm); [|reflexivity]. right. right. exists tx. split; [exact Hpx|]. left. exists th. auto. }
+    split.
+    + destruct (kept (cur e2 :: fst hr)) as [|k0 K'] eqn:EK; [contradiction|].
+      assert (Hk0 : In k0 (kept (cur e2 :: fst hr))) by (rewrite EK; left; reflexivity).
+      unfold kept in Hk0. apply filter_In in Hk0. destruct Hk0 as [Hin Hk]. apply (Hone k0 Hin Hk).
+    + intros v d1 H.
+      destruct (combine_complete (cur e2 :: fst hr) (restore st (snd hr)) v d1 Hkle Hne H) as (sc & Hin & Hk & Hd).
+      destruct (Hone sc Hin Hk) as (_ & X). apply X. exact Hd.
+  - (* can complete *)
+    intros Hc. cbn [can_complete can_complete_b] in Hc. rewrite andb_true_r in Hc.
+    apply orb_true_iff in Hc. destruct Hc as [Hc|Hc].
+    + apply andb_true_iff in Hc. destruct Hc as [Hcb Hce].
+      destruct (IHe pe Hue e1 (Hs1e1 (Lb Hcb))) as (_ & _ & Le & _). fold e2 in Le.
+      eapply combine_live with (sc := cur e2); [left; reflexivity|apply live_keeps; apply Le; exact Hce|exact Hl].
+    + destruct (Lh Hc) as (x & Hx & Hlx).
+      eapply combine_live with (sc := x); [right; exact Hx|apply live_keeps; exact Hlx|exact Hl].
+  - (* loop list untouched *)
+    unfold te_finish. rewrite combine_loops_same.
+    + cbn [restore loops]. rewrite Ph. change (loops o3) with (loops e2).
+      assert (Pe1 : loops e1 = loops s1).
+      { unfold e1, te_else_entry. rewrite combine_loops_same; [|intros sc [<-|[]]; exact Hll_s1].
+        cbn [enter restore loops]. unfold sf, te_after_body, suppress_leave. cbn [snd].
+        rewrite combine_loops_same; [reflexivity|].
+        intros sc [<-|[<-|[<-|[]]]]; cbn; try exact Hll. exact Hll_s1. }
+      destruct e as [|es er].
+      * cbn [visit_b] in e2. unfold e2. rewrite Pe1. exact Pb.
+      * cbn [is_nil] in Hdead. rewrite orb_false_r in Hdead.
+        destruct (IHe pe Hue e1 (Hs1e1 (Lb Hdead))) as (_ & _ & _ & Pe). fold e2 in Pe. rewrite Pe, Pe1. exact Pb.
+    + intros sc [<-|Hin]; [exact Hll_e2|apply Mh; exact Hin].
+Qed.
+
+Lemma uq_loop : forall fv b e, Q_b b -> Q_s (SLoop fv b e).
+Proof.
+  intros fv b e IHb prot Hu st Hl. cbn [upper_ok_s] in Hu.
+  apply andb_true_iff in Hu. destruct Hu as [Hu Hub]. apply andb_true_iff in Hu. destruct Hu as [Hfv He].
+  destruct fv; [discriminate|]. destruct e; [|discriminate].
+  cbn [visit_s].
+  set (m0 := loop_body_entry st).
+  set (m1 := visit_b b m0).
+  set (o2 := loop_after_body st m1).
+  set (body := cur o2).
+  unfold loop_st2, loop_else_entry, loop_st4, loop_bs, loop_finish. cbn [is_nil negb andb visit_b].
+  set (st2 := restore st o2).
+  set (e2 := enter st2).
+  set (st4 := combine [cur o2; cur e2] (restore st2 e2)).
+  set (r1 := visit_b b (enter st4)).
+  assert (Hll : ll (cur st) = false) by (destruct Hl; assumption).
+  assert (Lm0 : live (cur m0)) by (destruct Hl; split; cbn; auto).
+  destruct (IHb prot Hub m0 Lm0) as (Ub1 & Nb1 & _ & Pb1). fold m1 in Ub1, Nb1, Pb1.
+  destruct (upper_facts_b b m0 Hub) as (Kb1 & Mb1). fold m1 in Kb1, Mb1.
+  assert (Lm1nil : loops m1 = []) by (rewrite Pb1; reflexivity).
+  assert (Le2 : live (cur e2)) by (destruct Hl; split; cbn; auto).
+  assert (L4 : live (cur st4)).
+  { eapply combine_live with (sc := cur e2); [right; left; reflexivity|apply live_keeps; exact Le2|exact Hl]. }
+  destruct (IHb prot Hub (enter st4) (enter_live _ L4)) as (Ub2 & _ & _ & Pb2). fold r1 in Ub2, Pb2.
+  assert (Kbody : kle (vars (cur st)) (vars body)).
+  { apply (combine_kle _ (mkState (cur (enter st)) (loops st) (u2d m1))). }
+  assert (LX : live (cur (mkState (cur (enter st)) (loops st) (u2d m1)))) by (destruct Hl; split; cbn; auto).
+  (* a binding possible after the body comes from one round started before the loop *)
+  assert (FB : keeps body = true -> forall v d1, In d1 (lookupU (vars body) v) ->
+            exists t1, lpath_b prot b ONorm t1 /\ real (cur st) v d1 t1).
+  { intros Hk v d1 H. unfold body, o2, loop_after_body, loop_scopes in H. rewrite Lm1nil in H. cbn [map] in H.
+    destruct (combine_complete [strip_ll (cur m1)] (mkState (cur (enter st)) (loops st) (u2d m1)) v d1) as (sc & Hin & Hks & Hd); auto.
+    - intros sc [<-|[]]. exact Kb1.
+    - apply combine_live_kept with (st := mkState (cur (enter st)) (loops st) (u2d m1)).
+      unfold body, o2, loop_after_body, loop_scopes in Hk. rewrite Lm1nil in Hk. cbn [map] in Hk. apply keeps_live. exact Hk.
+    - destruct Hin as [<-|[]].
+      assert (L1 : live (cur m1)).
+      { apply keeps_live in Hks. destruct Hks as [X1 _]. split; [exact X1|rewrite Mb1; destruct Lm0; assumption]. }
+      destruct (Nb1 L1) as (_ & Nb'). apply (Nb' v d1). exact Hd. }
+  (* bindings at the head of any round: the ones before the loop, or after one round *)
+  assert (F4 : forall v d1, In d1 (lookupU (vars (cur st4)) v) ->
+            exists th, iters (fun x => lpath_b prot b ONorm x \/ lpath_b prot b OCont x) th /\ real (cur st) v d1 th).
+  { intros v d1 H.
+    destruct (combine_complete [cur o2; cur e2] (restore st2 e2) v d1) as (sc & Hin & Hk & Hd); auto.
+    - intros sc [<-|[<-|[]]]; [exact Kbody|apply kle_refl].
+    - apply (combine_live_kept _ _ L4).
+    - destruct Hin as [<-|[<-|[]]].
+      + destruct (FB Hk v d1 Hd) as (t1 & Hp & Hr). exists ([] ++ t1).
+        split; [constructor; [constructor|left; exact Hp]|exact Hr].
+      + exists []. split; [constructor|apply real_nil; exact Hd]. }
+  split; [|split; [|split]].
+  - intros u d H. cbn [restore u2d] in H.
+    destruct (Ub2 u d H) as [H1|(t2 & v & Hp & Hr)].
+    + change (u2d (enter st4)) with (u2d m1) in H1.
+      destruct (Ub1 u d H1) as [H2|(t & v & Hp & Hr)]; [left; exact H2|].
+      right. exists ([] ++ t), v. split; [|exact Hr]. cbn [lupath_s]. exists [], t. split; [constructor|]. split; [reflexivity|left; exact Hp].
+    + right.
+      destruct (real_compose (fun t => iters (fun x => lpath_b prot b ONorm x \/ lpath_b prot b OCont x) t) (cur st) (cur st4) v d t2 Hr (F4 v)
+                  (ex_intro _ [] (iters_nil _))) as (th & Hi & Hrr).
+      exists (th ++ t2), v. split; [|exact Hrr]. cbn [lupath_s]. exists th, t2. split; [exact Hi|]. split; [reflexivity|left; exact Hp].
+  - intros _. split.
+    + exists ([] ++ []). cbn [lpath_s]. exists [], []. split; [constructor|]. split; [reflexivity|right; left; auto].
+    + intros v d1 H. cbn [restore cur] in H. destruct (F4 v d1 H) as (th & Hi & Hr).
+      exists (th ++ []). split; [|rewrite app_nil_r; exact Hr].
+      cbn [lpath_s]. exists th, []. split; [exact Hi|]. split; [reflexivity|right; left; auto].
+  - intros _. exact L4.
+  - cbn [restore loops]. rewrite Pb2. cbn [enter loops]. unfold st4. rewrite combine_loops_same.
+    + unfold e2, st2. cbn [restore loops enter]. unfold o2, loop_after_body. rewrite combine_loops_same; [reflexivity|].
+      intros sc Hin. apply in_map_iff in Hin. destruct Hin as (x & <- & _). reflexivity.
+    + intros sc [<-|[<-|[]]]; cbn; exact Hll.
+Qed.
+
+Lemma upper_all : (forall s, Q_s s) /\ (forall b, Q_b b) /\ (forall hs, Q_hs hs).
+Proof.
+  apply syntax_mutind.
+  - (* SAssign *) intros v d prot _ st Hl. cbn [visit_s]. split; [|split; [|split]].
     + intros u x H. left. exact H.
     + intros _. split; [exists [(v, d)]; cbn; auto|].
       intros w d1 H. exists [(v, d)]. split; [cbn; auto|].
@@ -202,116 +792,49 @@ Proof.
       * rewrite lookup_upd_other in H by assumption. left. exists d1. split; [exact H|].
         cbn. apply N.eqb_neq in Hne. rewrite Hne. reflexivity.
     + intros _. exact Hl.
-  - (* SUse *) intros v u prot _ _ st Hl. cbn [visit_s]. split; [|split].
+    + reflexivity.
+  - (* SUse *) intros v u prot _ st Hl. cbn [visit_s]. split; [|split; [|split]].
     + intros u' x H. unfold get_var in H. cbn [u2d] in H. apply in_app_or in H. destruct H as [H|H]; [left; exact H|].
       right. apply in_map_iff in H. destruct H as (d0 & E & Hin). inversion E; subst.
       exists [], v. split; [cbn; auto|]. apply real_nil. exact Hin.
     + intros _. split; [exists []; cbn; auto|]. intros w d1 H. exists []. split; [cbn; auto|]. apply real_nil. exact H.
     + intros _. exact Hl.
-  - (* SCall *) intros prot _ _ st Hl. cbn [visit_s]. split; [|split].
+    + reflexivity.
+  - (* SCall *) intros prot _ st Hl. cbn [visit_s]. split; [|split; [|split]].
     + intros u x H. left. exact H.
     + intros _. split; [exists []; cbn; auto|]. intros w d1 H. exists []. split; [cbn; auto|]. apply real_nil. exact H.
     + intros _. exact Hl.
-  - (* SPass *) intros prot _ _ st Hl. cbn [visit_s]. split; [|split].
+    + reflexivity.
+  - (* SPass *) intros prot _ st Hl. cbn [visit_s]. split; [|split; [|split]].
     + intros u x H. left. exact H.
     + intros _. split; [exists []; cbn; auto|]. intros w d1 H. exists []. split; [cbn; auto|]. apply real_nil. exact H.
     + intros _. exact Hl.
-  - (* SReturn *) intros prot _ _ st Hl. cbn [visit_s]. split; [|split].
+    + reflexivity.
+  - (* SReturn *) intros prot _ st Hl. cbn [visit_s]. split; [|split; [|split]].
     + intros u x H. left. exact H.
     + intros [X _]. cbn in X. discriminate.
     + intros X. cbn in X. discriminate.
-  - (* SRaise *) intros prot _ _ st Hl. cbn [visit_s]. split; [|split].
+    + reflexivity.
+  - (* SRaise *) intros prot _ st Hl. cbn [visit_s]. split; [|split; [|split]].
     + intros u x H. left. exact H.
     + intros [X _]. cbn in X. discriminate.
     + intros X. cbn in X. discriminate.
-  - (* SIf *) intros b IHb e IHe prot Hu Hf st Hl.
-    cbn [upper_ok_s] in Hu. apply andb_true_iff in Hu. destruct Hu as [Hub Hue].
-    cbn [flat_s] in Hf. apply andb_true_iff in Hf. destruct Hf as [Hfb Hfe].
-    cbn [visit_s].
-    set (s1 := visit_b b (enter st)). set (s2 := visit_b e (if_mid st s1)).
-    destruct (IHb prot Hub Hfb (enter st) (enter_live _ Hl)) as (Ub & Nb & Lb). fold s1 in Ub, Nb, Lb.
-    destruct (IHe prot Hue Hfe (if_mid st s1) (enter_live (restore st s1) Hl)) as (Ue & Ne & Le). fold s2 in Ue, Ne, Le.
-    destruct (upper_facts_b b (enter st) Hub) as (Kb & Mb). fold s1 in Kb, Mb.
-    destruct (upper_facts_b e (if_mid st s1) Hue) as (Ke & Me). fold s2 in Ke, Me.
-    split; [|split].
-    + intros u d H. change (u2d (if_finish st s1 s2)) with (u2d s2) in H.
-      destruct (Ue u d H) as [H1|(t & v & Hp & Hr)].
-      * change (u2d (if_mid st s1)) with (u2d s1) in H1. destruct (Ub u d H1) as [H2|(t & v & Hp & Hr)].
-        -- left. exact H2.
-        -- right. exists t, v. split; [cbn [lupath_s]; left; exact Hp|exact Hr].
-      * right. exists t, v. split; [cbn [lupath_s]; right; exact Hp|exact Hr].
-    + intros Hlf.
-      assert (Hne : kept [cur s1; cur s2] <> []) by (apply (combine_live_kept _ (restore (restore st s1) s2)); exact Hlf).
-      assert (Hsel : forall v d1, In d1 (lookupU (vars (cur (if_finish st s1 s2))) v) ->
-                exists t, lpath_s prot (SIf b e) ONorm t /\ real (cur st) v d1 t).
-      { intros v d1 H.
-        destruct (combine_complete [cur s1; cur s2] (restore (restore st s1) s2) v d1) as (sc & Hin & Hk & Hd); auto.
-        { intros sc [<-|[<-|[]]]; assumption. }
-        destruct Hin as [<-|[<-|[]]].
-        - destruct (Nb (keeps_live _ Hk)) as (_ & Nb'). destruct (Nb' v d1 Hd) as (t & Hp & Hr).
-          exists t. split; [cbn [lpath_s]; left; exact Hp|exact Hr].
-        - destruct (Ne (keeps_live _ Hk)) as (_ & Ne'). destruct (Ne' v d1 Hd) as (t & Hp & Hr).
-          exists t. split; [cbn [lpath_s]; right; exact Hp|exact Hr]. }
-      split; [|exact Hsel].
-      destruct (kept [cur s1; cur s2]) as [|k0 K'] eqn:EK; [contradiction|].
-      assert (Hk0 : In k0 (kept [cur s1; cur s2])) by (rewrite EK; left; reflexivity).
-      unfold kept in Hk0. apply filter_In in Hk0. destruct Hk0 as [[<-|[<-|[]]] Hk].
-      * destruct (Nb (keeps_live _ Hk)) as ((t & Hp) & _). exists t. cbn [lpath_s]. left. exact Hp.
-      * destruct (Ne (keeps_live _ Hk)) as ((t & Hp) & _). exists t. cbn [lpath_s]. right. exact Hp.
-    + intros Hc. cbn [can_complete] in Hc. apply orb_true_iff in Hc. destruct Hc as [Hc|Hc].
-      * eapply combine_live with (sc := cur s1); [left; reflexivity|apply live_keeps; apply Lb; exact Hc|exact Hl].
-      * eapply combine_live with (sc := cur s2); [right; left; reflexivity|apply live_keeps; apply Le; exact Hc|exact Hl].
-  - (* BNil *) intros prot _ _ st Hl. cbn [visit_b]. split; [|split].
+    + reflexivity.
+  - intros prot H. discriminate.
+  - intros prot H. discriminate.
+  - intros b Hb e He. apply uq_if; assumption.
+  - intros fv b Hb e He. apply uq_loop; assumption.
+  - intros sup b Hb. apply uq_with; assumption.
+  - intros b Hb hs Hhs e He f Hf. apply uq_try; assumption.
+  - (* BNil *) intros prot _ st Hl. cbn [visit_b]. split; [|split; [|split]].
     + intros u x H. left. exact H.
     + intros _. split; [exists []; cbn; auto|]. intros w d1 H. exists []. split; [cbn; auto|]. apply real_nil. exact H.
     + intros _. exact Hl.
-  - (* BCons *) intros s IHs r IHr prot Hu Hf st Hl.
-    cbn [upper_ok_b] in Hu. apply andb_true_iff in Hu. destruct Hu as [Hu Hdead]. apply andb_true_iff in Hu. destruct Hu as [Hus Hur].
-    cbn [flat_b] in Hf. apply andb_true_iff in Hf. destruct Hf as [Hfs Hfr].
-    cbn [visit_b]. set (st1 := visit_s s st).
-    destruct (IHs prot Hus Hfs st Hl) as (Us & Ns & Ls). fold st1 in Us, Ns, Ls.
-    destruct (upper_facts_s s st Hus) as (Ks & Ms). fold st1 in Ks, Ms.
-    assert (Hback : live (cur (visit_b r st1)) -> live (cur st1)).
-    { intros [X1 X2]. split.
-      - destruct (ls (cur st1)) eqn:E; [|reflexivity]. destruct ls_mono as (_ & LM & _).
-        rewrite (LM r st1 E) in X1. discriminate.
-      - rewrite Ms. destruct Hl; assumption. }
-    split; [|split].
-    + intros u d H.
-      destruct r as [|s' r'].
-      * cbn [visit_b] in H. destruct (Us u d H) as [H1|(t & v & Hp & Hr)]; [left; exact H1|].
-        right. exists t, v. split; [cbn [lupath_b]; left; exact Hp|exact Hr].
-      * set (r := BCons s' r') in *.
-        assert (Hcs : can_complete s = true) by (cbn in Hdead; rewrite orb_false_r in Hdead; exact Hdead).
-        pose proof (Ls Hcs) as Hl1.
-        destruct (IHr prot Hur Hfr st1 Hl1) as (Ur & _ & _).
-        destruct (Ur u d H) as [H1|(t2 & v & Hp & Hr)].
-        -- destruct (Us u d H1) as [H2|(t & v & Hp & Hr)]; [left; exact H2|].
-           right. exists t, v. split; [cbn [lupath_b]; left; exact Hp|exact Hr].
-        -- right. destruct (Ns Hl1) as ((t0 & Hp0) & Ns').
-           destruct Hr as [(d1 & Hin & ->)|Hall].
-           ++ destruct (Ns' v d1 Hin) as (t1 & Hp1 & Hr1). exists (t1 ++ t2), v.
-              split; [cbn [lupath_b]; right; exists t1, t2; auto|].
-              destruct Hr1 as [(d0 & Hin0 & ->)|Hall1].
-              ** left. exists d0. split; [exact Hin0|]. rewrite applyv_app. reflexivity.
-              ** right. intros d0. rewrite applyv_app. rewrite Hall1. reflexivity.
-           ++ exists (t0 ++ t2), v. split; [cbn [lupath_b]; right; exists t0, t2; auto|].
-              right. intros d0. rewrite applyv_app. apply Hall.
-    + intros Hl2. pose proof (Hback Hl2) as Hl1.
-      destruct (IHr prot Hur Hfr st1 Hl1) as (_ & Nr & _). destruct (Nr Hl2) as ((t2 & Hp2) & Nr').
-      destruct (Ns Hl1) as ((t0 & Hp0) & Ns').
-      split; [exists (t0 ++ t2); cbn [lpath_b]; right; left; exists t0, t2; auto|].
-      intros v d2 H. destruct (Nr' v d2 H) as (t2' & Hp2' & Hr).
-      destruct Hr as [(d1 & Hin & ->)|Hall].
-      * destruct (Ns' v d1 Hin) as (t1 & Hp1 & Hr1). exists (t1 ++ t2').
-        split; [cbn [lpath_b]; right; left; exists t1, t2'; auto|].
-        destruct Hr1 as [(d0 & Hin0 & ->)|Hall1].
-        -- left. exists d0. split; [exact Hin0|]. rewrite applyv_app. reflexivity.
-        -- right. intros d0. rewrite applyv_app. rewrite Hall1. reflexivity.
-      * exists (t0 ++ t2'). split; [cbn [lpath_b]; right; left; exists t0, t2'; auto|].
-        right. intros d0. rewrite applyv_app. apply Hall.
-    + intros Hc. cbn [can_complete_b] in Hc. apply andb_true_iff in Hc. destruct Hc as [Hc1 Hc2].
-      destruct (IHr prot Hur Hfr st1 (Ls Hc1)) as (_ & _ & Lr). apply Lr. exact Hc2.
+    + reflexivity.
+  - intros s Hs r Hr. apply uq_bcons; assumption.
+  - (* HNil *) intros prot _ dummy failure o _ _ _ _ _ _. cbn [visit_hs fst snd].
+    split; [intros u d H; left; exact H|]. split; [intros h []|]. split; [intros X; discriminate|]. split; [reflexivity|intros h []].
+  - intros h Hh r Hr. apply uq_hcons; assumption.
 Qed.
 
 Lemma reported_in_analyse : forall p u d, In d (reported p u) -> In (u, d) (analyse p).
@@ -321,16 +844,14 @@ Proof.
   cbn in H2. apply N.eqb_eq in H2. subst u'. exact H1.
 Qed.
 
-(* stage 1 of the upper bound: programs built from assignments, uses, calls, pass, return,
-   raise and if/else (no dead code): everything reported reaches the use along a liberal path *)
-Theorem reported_sub_liberal_flat : forall p u d,
-  upper1_ok p = true -> In d (reported p u) -> liberal_reach p u d.
+(* the upper bound: everything reported reaches the use along a liberal path *)
+Theorem reported_sub_liberal : forall p u d,
+  upper_ok p = true -> In d (reported p u) -> liberal_reach p u d.
 Proof.
-  intros p u d Hok H. unfold upper1_ok in Hok. apply andb_true_iff in Hok. destruct Hok as [Hu Hf].
-  apply reported_in_analyse in H. unfold analyse in H.
+  intros p u d Hu H. apply reported_in_analyse in H. unfold analyse in H.
   destruct upper_all as (_ & QB & _).
   assert (Hl : live (cur init)) by (split; reflexivity).
-  destruct (QB p false Hu Hf init Hl) as (U & _).
+  destruct (QB p false Hu init Hl) as (U & _).
   destruct (U u d H) as [[]|(t & v & Hp & Hr)].
   exists t, v. split; [exact Hp|].
   destruct Hr as [(d0 & Hin & ->)|Hall].
@@ -339,6 +860,21 @@ Proof.
 Qed.
 
 (* a name bound on every liberal path is not reported as (possibly) undefined *)
-Theorem bound_not_reported_flat : forall p u,
-  upper1_ok p = true -> In UN (reported p u) -> liberal_reach p u UN.
-Proof. intros p u H1 H2. apply reported_sub_liberal_flat; assumption. Qed.
+Theorem bound_is_not_reported : forall p u,
+  upper_ok p = true -> (forall d, liberal_reach p u d -> d <> UN) ->
+  undefined_name p u = true /\ reported p u <> [] -> False.
+Proof.
+  intros p u Hu Hb (Hun & Hne). destruct (reported p u) as [|d l] eqn:E; [contradiction|].
+  unfold undefined_name, only_un in Hun. rewrite E in Hun. cbn [forallb] in Hun. apply andb_true_iff in Hun. destruct Hun as [Hd _].
+  apply N.eqb_eq in Hd. subst d. apply (Hb UN); [|reflexivity].
+  apply reported_sub_liberal; [exact Hu|rewrite E; left; reflexivity].
+Qed.
+
+Theorem bound_is_not_possibly : forall p u,
+  upper_ok p = true -> (forall d, liberal_reach p u d -> d <> UN) -> possibly_undefined p u = false.
+Proof.
+  intros p u Hu Hb. unfold possibly_undefined.
+  destruct (existsb (N.eqb UN) (reported p u)) eqn:E; [|reflexivity].
+  apply existsb_exists in E. destruct E as (x & Hin & Hx). apply N.eqb_eq in Hx. subst x.
+  exfalso. apply (Hb UN); [|reflexivity]. apply reported_sub_liberal; assumption.
+Qed.
